@@ -30,7 +30,7 @@ pub const PROP: Prop = Prop {
 };
 
 #[derive(Debug)]
-struct Payload(u64);
+pub struct Payload(pub u64);
 impl std::fmt::Display for Payload {
     fn fmt(&self, f: &mut std::fmt::Formatter<'_>) -> std::fmt::Result {
         write!(f, "injected read fault #{}", self.0)
@@ -288,7 +288,7 @@ fn stream_run(c: &Case, q: &QOpt, fault: Option<(usize, io::ErrorKind, u64)>) ->
     }
 }
 
-const KINDS: [io::ErrorKind; 4] = [
+pub const KINDS: [io::ErrorKind; 4] = [
     io::ErrorKind::Other,
     io::ErrorKind::UnexpectedEof,
     io::ErrorKind::InvalidData,
